@@ -375,6 +375,14 @@ def run_c09(argv):
                 if pyl != [(n, int(v)) for n, v in idx_lines]:
                     chk.violation({"kind": "artefacts-differ", "pair": "macros/python"}, "C macros and Python constants disagree", input=show, python=pyl[:20])
                     break
+                # the element indices too: one name per slot in every artefact
+                pel = [(m.group(1), int(m.group(2))) for m in re.finditer(r"^(IDX_ELEM_\S+)\s*=\s*(\d+)\s*$", py, re.M)]
+                cel = [(n, int(v)) for n, v in rd.idx_lines if n.startswith("IDX_ELEM_")]
+                if pel != cel:
+                    chk.violation({"kind": "artefacts-differ", "pair": "element-macros/python"},
+                                  "element index macros of the C header and the Python constants disagree", input=show,
+                                  python=pel[:12], c_header=cel[:12])
+                    break
                 try:
                     compile(py, "constant_indexes.py", "exec")
                 except SyntaxError as e:
